@@ -834,11 +834,17 @@ fn matching_pattern_to_document(
         elements,
         *ending_associated_comments,
         |it| {
+          let field_name_doc = create_opt_preceding_comment_doc(
+            heap,
+            comment_store,
+            it.field_name.associated_comments,
+            text_pstr(heap, it.field_name.name),
+          );
           if it.shorthand {
-            text_pstr(heap, it.field_name.name)
+            field_name_doc
           } else {
             Document::concat(vec![
-              (text_pstr(heap, it.field_name.name)),
+              field_name_doc,
               Document::Text(" as "),
               matching_pattern_to_document(heap, comment_store, &it.pattern),
             ])
@@ -958,7 +964,7 @@ fn type_parameters_to_doc(
       heap,
       comment_store,
       &tparams.parameters,
-      NO_COMMENT_REFERENCE,
+      tparams.ending_associated_comments,
       |tparam| {
         create_opt_preceding_comment_doc(
           heap,
@@ -976,6 +982,8 @@ fn type_parameters_to_doc(
         )
       },
     ));
+    let doc =
+      create_opt_preceding_comment_doc(heap, comment_store, tparams.start_associated_comments, doc);
     if extra_space { Document::Concat(Rc::new(doc), Rc::new(Document::Text(" "))) } else { doc }
   } else {
     Document::Nil
@@ -1023,7 +1031,7 @@ fn create_doc_for_interface_member(
     if member.is_public { Document::Nil } else { Document::Text("private ") },
     Document::Text(if member.is_method { "method " } else { "function " }),
     type_parameters_to_doc(heap, comment_store, true, member.type_parameters.as_ref()),
-    (text_pstr(heap, member.name.name)),
+    create_opt_preceding_comment_doc(heap, comment_store, member.name.associated_comments, text_pstr(heap, member.name.name)),
     create_opt_preceding_comment_doc(
       heap,
       comment_store,
@@ -1098,7 +1106,7 @@ fn interface_to_doc(
     )
     .unwrap_or(Document::Nil),
     Document::Text(if interface.private { "private interface " } else { "interface " }),
-    (text_pstr(heap, interface.name.name)),
+    create_opt_preceding_comment_doc(heap, comment_store, interface.name.associated_comments, text_pstr(heap, interface.name.name)),
     type_parameters_to_doc(heap, comment_store, false, interface.type_parameters.as_ref()),
     extends_or_implements_node_to_doc(
       heap,
@@ -1150,7 +1158,7 @@ fn class_to_doc(
     )
     .unwrap_or(Document::Nil),
     Document::Text(if class.private { "private class " } else { "class " }),
-    text_pstr(heap, class.name.name),
+    create_opt_preceding_comment_doc(heap, comment_store, class.name.associated_comments, text_pstr(heap, class.name.name)),
     type_parameters_to_doc(heap, comment_store, false, class.type_parameters.as_ref()),
     match class.type_definition.as_ref() {
       None => Document::Nil,
@@ -1169,12 +1177,17 @@ fn class_to_doc(
           fields,
           *ending_associated_comments,
           |field| {
-            Document::concat(vec![
-              Document::Text(if field.is_public { "val " } else { "private val " }),
-              text_pstr(heap, field.name.name),
-              Document::Text(": "),
-              annotation_to_doc(heap, comment_store, &field.annotation),
-            ])
+            create_opt_preceding_comment_doc(
+              heap,
+              comment_store,
+              field.name.associated_comments,
+              Document::concat(vec![
+                Document::Text(if field.is_public { "val " } else { "private val " }),
+                text_pstr(heap, field.name.name),
+                Document::Text(": "),
+                annotation_to_doc(heap, comment_store, &field.annotation),
+              ]),
+            )
           },
         )),
       ),
@@ -1195,7 +1208,12 @@ fn class_to_doc(
           |variant| {
             if let Some(annotations) = &variant.associated_data_types {
               Document::concat(vec![
-                (text_pstr(heap, variant.name.name)),
+                create_opt_preceding_comment_doc(
+                  heap,
+                  comment_store,
+                  variant.name.associated_comments,
+                  text_pstr(heap, variant.name.name),
+                ),
                 create_opt_preceding_comment_doc(
                   heap,
                   comment_store,
@@ -1210,7 +1228,12 @@ fn class_to_doc(
                 ),
               ])
             } else {
-              text_pstr(heap, variant.name.name)
+              create_opt_preceding_comment_doc(
+                heap,
+                comment_store,
+                variant.name.associated_comments,
+                text_pstr(heap, variant.name.name),
+              )
             }
           },
         )),
@@ -1279,7 +1302,7 @@ pub(super) fn import_to_document(
     comment_store,
     imported_members,
     NO_COMMENT_REFERENCE,
-    |m| text_pstr(heap, m.name),
+    |m| create_opt_preceding_comment_doc(heap, comment_store, m.associated_comments, text_pstr(heap, m.name)),
   )));
   documents.push(Document::Text(" from "));
   documents.push(Document::non_static_str(imported_module.pretty_print(heap)));
